@@ -31,6 +31,8 @@ structure PX where
   view : Files
   opened : List (Handle × Bytes × Bytes)   -- handle of an `openRd` -> (directory, name)
   acc : List (Handle × Bytes)              -- bytes returned by the reads on that handle so far
+  ofid : List (Bytes × Bytes × Nat) := []  -- (directory, name) -> the file the party's LAST `openRd` of that name gave it
+  stale : Nat := 0                         -- successful `unlinkat` of a name that no longer denotes the file the party opened under it
 
 /-- Advance a program along a recorded trace; `none` if it issues another call. -/
 def fastForward : Prog Bool → List (Call × Res) → Option (Prog Bool)
@@ -51,7 +53,20 @@ def learn (x : PX) (w : World) (c : Call) (r : Res) : PX × Bool :=
   match c, r with
   | .openRd d n, .ok h =>
     match w.dirPath d with
-    | some q => ({ x with opened := (h, q, n) :: x.opened.filter (·.1 != h), acc := (h, []) :: x.acc.filter (·.1 != h) }, false)
+    | some q =>
+      let x1 := { x with opened := (h, q, n) :: x.opened.filter (·.1 != h), acc := (h, []) :: x.acc.filter (·.1 != h) }
+      match w.lookup q n with
+      | some fid => ({ x1 with ofid := (q, n, fid) :: x1.ofid.filter (fun e => !(e.1 == q && e.2.1 == n)) }, false)
+      | none => (x1, false)
+    | none => (x, false)
+  | .unlinkat d n, .ok _ =>
+    -- reading of the history only: the name is unlinked successfully, but it is bound to another file than the one this party
+    -- opened under it (the name was given away and generated again in between)
+    match w.dirPath d with
+    | some q =>
+      match x.ofid.find? (fun e => e.1 == q && e.2.1 == n), w.lookup q n with
+      | some (_, _, fid), some cur => (if fid != cur then { x with stale := x.stale + 1 } else x, false)
+      | _, _ => (x, false)
     | none => (x, false)
   | .read fd, .ok cnt =>
     match x.opened.find? (·.1 == fd), w.obj fd with
